@@ -335,9 +335,10 @@ func (c *Ctx) funcxRun() map[string]*simpleVerdict {
 				return held
 			}
 			defer func() {
+				note("arguments-unchanged", "", "")
 				for i, p := range held {
 					if now := h.typeOf(p) + ":" + h.payloadOf(p); i < len(before) && now != before[i] {
-						note("semantics", fmt.Sprintf("%s changes its argument %d from %s to %s: arguments belong to the caller (constants and variables of the compiled expression)", what, i+1, before[i], now), "")
+						note("arguments-unchanged", fmt.Sprintf("%s changes its argument %d from %s to %s: arguments belong to the caller (constants and variables of the compiled expression)", what, i+1, before[i], now), "")
 					}
 				}
 			}()
@@ -532,13 +533,13 @@ func (c *Ctx) funcxRun() map[string]*simpleVerdict {
 }
 
 func init() {
-	register(&Rule{ID: "FUNC.model", Floor: 4,
+	register(&Rule{ID: "FUNC.model", Floor: 5,
 		Doc: "the default function table evaluated abstractly (NewDefaultFunctionCollection, FindByName in three letter cases, Calculate with the type-unsafe operations): the 37 names and nothing else; per function and argument count 0..9 a result exactly for the statement's counts, never nil-without-error or both; host functions and constants as symbolic expressions of the converted argument; Min/Max/Sum/If/Choose/Contains/Abs/Empty/Null/Array/TimeSpan/Date on constants against their meaning",
 		Run: func(c *Ctx) []*Obligation {
 			o := newObl("FUNC.model")
 			res := c.funcxRun()
 			pos := c.Pos(c.MustFunc(pkgFunctions, "", "NewDefaultFunctionCollection").Pos())
-			for _, k := range []string{"table", "arity", "meaning", "semantics"} {
+			for _, k := range []string{"table", "arity", "meaning", "semantics", "arguments-unchanged"} {
 				v := res[k]
 				if v == nil {
 					v = &simpleVerdict{}
